@@ -72,13 +72,16 @@ type BrainRangeStream struct {
 	Sent []*proto.StreamRangeResponse
 }
 
-func (s *BrainRangeStream) Send(r *proto.StreamRangeResponse) error { s.Sent = append(s.Sent, r); return nil }
-func (s *BrainRangeStream) SetHeader(metadata.MD) error             { return nil }
-func (s *BrainRangeStream) SendHeader(metadata.MD) error            { return nil }
-func (s *BrainRangeStream) SetTrailer(metadata.MD)                  {}
-func (s *BrainRangeStream) Context() context.Context                { return s.Ctx }
-func (s *BrainRangeStream) SendMsg(m interface{}) error             { return nil }
-func (s *BrainRangeStream) RecvMsg(m interface{}) error             { return nil }
+func (s *BrainRangeStream) Send(r *proto.StreamRangeResponse) error {
+	s.Sent = append(s.Sent, r)
+	return nil
+}
+func (s *BrainRangeStream) SetHeader(metadata.MD) error  { return nil }
+func (s *BrainRangeStream) SendHeader(metadata.MD) error { return nil }
+func (s *BrainRangeStream) SetTrailer(metadata.MD)       {}
+func (s *BrainRangeStream) Context() context.Context     { return s.Ctx }
+func (s *BrainRangeStream) SendMsg(m interface{}) error  { return nil }
+func (s *BrainRangeStream) RecvMsg(m interface{}) error  { return nil }
 
 // BrainWatchStream is an in-memory proto.Watch_WatchServer.
 type BrainWatchStream struct {
